@@ -190,4 +190,6 @@ def run(repo, tier):
     res.floor('LABEL-EQ', 3)
     from .common import run_cast_to_data_dtype
     run_cast_to_data_dtype(repo, res, {'photutils.segmentation.detect', 'photutils.segmentation.finder'})
+    from .common import run_generic_pack
+    run_generic_pack(repo, res, PROP, ())
     return res
